@@ -137,7 +137,20 @@ func checkC06(p *Prog, r *Report) {
 			if f.Root().Name == "createAgentBase" {
 				continue
 			}
-			r.Check(allowed[f.Name], "writer of "+fld+": "+f.Name, p.Pos(nodes[0].Pos()), "bookkeeping function", fld+" is modified in "+f.Name+", outside the pair bookkeeping functions")
+			okW := allowed[f.Name]
+			if !okW && fld != "Agent.nextPairID" {
+				// a reset helper of the two wipe sites: only fresh empty values, only called from them
+				okW = true
+				for _, n := range nodes {
+					okW = okW && p.resetNode(n, fld, 0)
+				}
+				cs := p.Callers(f)
+				okW = okW && len(cs) > 0
+				for _, e := range cs {
+					okW = okW && (e.Caller.Name == "Agent.Restart$1" || e.Caller.Name == "Agent.updateConnectionState")
+				}
+			}
+			r.Check(okW, "writer of "+fld+": "+f.Name, p.Pos(nodes[0].Pos()), "bookkeeping function (or a reset helper of Restart / Failed)", fld+" is modified in "+f.Name+", outside the pair bookkeeping functions")
 		}
 	}
 	{
@@ -393,24 +406,7 @@ func checkC06(p *Prog, r *Report) {
 	r.Rule("R6.5", "Restart and the Failed transition leave no pairs, candidates, selection or outstanding transactions behind: both reset checklist, pair index and pending transactions to fresh empty values, clear the selection and delete all candidates.", 14)
 	checkRestartWipe(p, r)
 	if ucs := p.Fn("Agent.updateConnectionState"); r.Anchor("Agent.updateConnectionState", ucs != nil) {
-		want := []string{"Agent.checklist", "Agent.pairsByID", "Agent.pendingBindingRequests"}
-		for _, fld := range want {
-			ok := false
-			for _, n := range p.StoresTo(ucs, fld) {
-				if as, isAs := n.(*ast.AssignStmt); isAs && len(as.Rhs) == 1 {
-					if c, isC := unparen(as.Rhs[0]).(*ast.CallExpr); isC && p.CalleeName(c) == "builtin.make" {
-						facts := p.DominatingFacts(ucs, n)
-						if facts.Has(func(ft Fact) bool { return ft.Op == "==" && ft.Val && p.constName(ft.Y) == "ConnectionStateFailed" }) {
-							ok = true
-						}
-					}
-				}
-			}
-			r.Check(ok, "Failed resets "+fld, p.Pos(ucs.Body.Pos()), "fresh empty value on the Failed branch", fld+" is not reset when the agent fails: residue of the failed generation stays reachable")
-		}
-		for _, need := range []string{"ice.Agent.deleteAllCandidates", "ice.Agent.removeUfragFromMux", "ice.Agent.setSelectedPair"} {
-			r.Check(len(p.CallsTo(ucs, false, need)) > 0, "Failed calls "+strings.TrimPrefix(need, "ice.Agent."), p.Pos(ucs.Body.Pos()), "present", "the Failed transition no longer calls "+need)
-		}
+		checkFailedWipe(p, r, ucs)
 	}
 	if f := p.Fn("Agent.deleteAllCandidates"); r.Anchor("Agent.deleteAllCandidates", f != nil) {
 		for _, fld := range []string{"Agent.localCandidates", "Agent.remoteCandidates"} {
@@ -440,6 +436,58 @@ func checkC06(p *Prog, r *Report) {
 	// ---- R6.7 exhaustive clean-up / migration loops ----
 	r.Rule("R6.7", "The loops that must treat every element of a collection do so: no early exit, and no path through an iteration that skips the operation (every local candidate's source cache follows a superseded remote).", 1)
 	checkForAllLoops(p, r, "C06")
+
+	// ---- R6.8 lookups and wipes stay within / cover the network type --------------------------------------
+	r.Rule("R6.8", "findRemoteCandidate looks only in the remote-candidate set of the network type it was asked for (an inbound check is attributed to a remote candidate of the local candidate's own network type, or to none — never to one of another transport); deleteAllCandidates removes every network type's entry from both maps on every path through its loops, whatever closing the candidates returned.", 3)
+	if f := p.Fn("Agent.findRemoteCandidate"); r.Anchor("Agent.findRemoteCandidate", f != nil) {
+		nt := p.paramObj(f, 0)
+		ok, n := true, 0
+		why := ""
+		walkBody(f, func(x ast.Node) bool {
+			sel, isS := x.(*ast.SelectorExpr)
+			if !isS || !p.IsField(sel, "Agent.remoteCandidates") {
+				return true
+			}
+			n++
+			return true
+		})
+		walkBody(f, func(x ast.Node) bool {
+			switch y := x.(type) {
+			case *ast.RangeStmt:
+				if p.IsField(y.X, "Agent.remoteCandidates") {
+					ok, why = false, "it ranges over the sets of all network types"
+				}
+			case *ast.IndexExpr:
+				if p.IsField(y.X, "Agent.remoteCandidates") && !p.isObj(y.Index, nt) {
+					ok, why = false, "it indexes the table with "+stripVarLines(p.Canon(y.Index))
+				}
+			}
+			return true
+		})
+		r.Check(ok && n > 0, "findRemoteCandidate searches only the requested network type", p.Pos(f.Body.Pos()), "remoteCandidates[networkType]", why+": an inbound check over one transport is attributed to a remote candidate of another, and a pair of mismatched network types enters the checklist")
+	}
+	if f := p.Fn("Agent.deleteAllCandidates"); f != nil {
+		for _, fld := range []string{"Agent.localCandidates", "Agent.remoteCandidates"} {
+			found := false
+			walkBody(f, func(x ast.Node) bool {
+				rs, isR := x.(*ast.RangeStmt)
+				if !isR || !p.IsField(rs.X, fld) {
+					return true
+				}
+				found = true
+				skips := p.iterationSkips(f, rs, func(nd ast.Node) bool {
+					return p.nodeHasCall(nd, func(c *ast.CallExpr) bool {
+						return p.CalleeName(c) == "builtin.delete" && len(c.Args) == 2 && p.IsField(c.Args[0], fld)
+					})
+				}, nil)
+				r.Check(!skips, "deleteAllCandidates forgets every network type of "+fld, p.Pos(rs.Pos()), "delete(map, type) on every path through the loop body", "a path through the loop (e.g. after a close error) keeps the network type's candidates listed: Restart / Failed leave candidates of the previous generation behind and new remote candidates are paired with them")
+				return true
+			})
+			if !found {
+				r.Fail("deleteAllCandidates forgets every network type of "+fld, p.Pos(f.Body.Pos()), "the map is not ranged over")
+			}
+		}
+	}
 }
 
 // pairIsListed: e derives from findPair/addPair, a checklist element, the
@@ -573,4 +621,36 @@ func (p *Prog) replacePairCoverage(f *Func) (map[string]bool, *types.Struct) {
 		return true
 	})
 	return covered, st
+}
+
+// checkFailedWipe: everything the Failed transition must forget is forgotten on
+// every path of the Failed branch, directly or through a helper (shared by C06 R6.5 and C01 R1.11).
+func checkFailedWipe(p *Prog, r *Report, ucs *Func) {
+	starts := p.branchStarts(ucs, func(ft Fact) bool {
+		return ft.Op == "==" && ft.Val && p.constName(ft.Y) == "ConnectionStateFailed"
+	})
+	if len(starts) == 0 {
+		r.Fail("Failed branch of updateConnectionState", p.Pos(ucs.Body.Pos()), "no branch taken on newState == ConnectionStateFailed found")
+		return
+	}
+	for _, fld := range []string{"Agent.checklist", "Agent.pairsByID", "Agent.pendingBindingRequests"} {
+		ok := true
+		for _, b := range starts {
+			ok = ok && p.resetsOnAllPaths(ucs, Loc{b, 0}, fld, 2)
+		}
+		r.Check(ok, "Failed resets "+fld, p.Pos(ucs.Body.Pos()), "fresh empty value on every path of the Failed branch", fld+" is not reset when the agent fails: residue of the failed generation stays reachable")
+	}
+	for _, need := range []string{"ice.Agent.deleteAllCandidates", "ice.Agent.removeUfragFromMux", "ice.Agent.setSelectedPair"} {
+		need := need
+		ok := true
+		for _, b := range starts {
+			ok = ok && p.callOnAllPaths(ucs, Loc{b, 0}, func(c *ast.CallExpr) bool {
+				if p.CalleeName(c) != need {
+					return false
+				}
+				return need != "ice.Agent.setSelectedPair" || (len(c.Args) == 1 && p.isNilExpr(c.Args[0]))
+			}, 2)
+		}
+		r.Check(ok, "Failed calls "+strings.TrimPrefix(need, "ice.Agent."), p.Pos(ucs.Body.Pos()), "on every path of the Failed branch", "a path of the Failed transition does not call "+need)
+	}
 }
